@@ -31,7 +31,7 @@ PROPS = {
                 assumptions=["tolerances (stats_oracle.h): mean (L+2)*(2u*A + n*2^-53*A) with u = 2^-24 (f32 summaries) or 2^-53 (f64 summaries), A = max|x|, L = levels, n = max(sdf, sumdf); std additionally 4*sqrt(tau*A)",
                              "64-bit types: an error return is accepted (the reader documents that raw-sample statistics of 64-bit types are unsupported); 24-bit types cannot be summarised and are excluded",
                              "windows containing gap fill are excluded (C09)"]),
-    "C15": dict(sources=["props/C15.cpp"], jls=True, tiers=T(600, 8000),
+    "C15": dict(sources=["props/C15.cpp"], jls=True, tiers=T(2000, 20000),
                 assumptions=["'enable is delayed by one block' is not predicted: which blocks are omitted is read from the level-1 index of the omit run",
                              "blocks omitted on request are only required to read back with rc 0 and the right number of samples; automatically omitted constant blocks of <= 8-bit types must be bit-exact"]),
     "C19": dict(sources=["props/C19.cpp"], jls=True, level="fault_enumeration", tiers=T(2000, 20000, qbudget=300, tbudget=1800),
